@@ -140,6 +140,14 @@ func mk[S, D signal.SignalTypes](fn, s, d string, conv func(*signal.Buffer[S], *
 					pd.Put(d1)
 					base, dbuf = ps.Get(), pd.Get()
 				}
+				if fix == 4 {
+					// both buffers grew out of an empty window at the end of another buffer
+					// (Slice(fr,fr), then an Append that moves them to storage of their own)
+					gs, gd := base.Slice(fr, fr), dbuf.Slice(fr, fr)
+					gs.Append(base)
+					gd.Append(dbuf)
+					base, dbuf = gs, gd
+				}
 				src, csrc, dst, size = base, base, dbuf, n
 				for base.Len() < n && a.Length < fr {
 					base.AppendSample(0)
